@@ -1,4 +1,4 @@
-// Witness finder for the SESSION properties C09, C10, C15 (session part), C17, C18: drives the REAL ServerSession /
+// Witness finder for the SESSION properties C09, C10, C15 (session part), C17, C18 and the session parts of C19 and C03: drives the REAL ServerSession /
 // ClientSession of the crate under test through scripted scenarios plus pseudo-random variations and compares what
 // they return with oracles written from the property statements (/verif/properties.jsonl).  Peer byte streams are
 // produced with the real ChunkSerializer (verified conformant, C07) from message bodies encoded HERE (own AMF0
@@ -11,8 +11,7 @@
 //        SW_DEBUG=1 prints the reference traces and coverage counters to stderr.
 //        SW_STRICT=1 additionally applies the LITERAL reading of the statements where the unchanged tree is known to deviate
 //        (reported as WITNESS [strict] ...; without it these situations are not generated, so the unchanged tree gives NONE):
-//          c10: onMetaData on the active stream while PUBLISHING raises StreamMetadataReceived (SW_STRICT=1); `_result` with a
-//               fractional transaction id (1.5) is applied to transaction 1 (SW_STRICT=2);  c17: bytes that follow the WindowAcknowledgement in the same
+//          c10: `_result` with a fractional transaction id (1.5) is applied to transaction 1;  c17: bytes that follow the WindowAcknowledgement in the same
 //               input call are never counted;  c15: connect + createStream + publish delivered in ONE call (the application
 //               cannot accept the connection in between) answers publish with an error, byte-by-byte delivery does not.
 use bytes::Bytes;
@@ -44,8 +43,7 @@ fn ctx(s: String) { if let Ok(mut g) = CTX.lock() { *g = s; } }
 fn get_ctx() -> String { CTX.lock().map(|g| g.clone()).unwrap_or_default() }
 fn trunc(s: &str, n: usize) -> String { if s.len() <= n { s.to_string() } else { let mut k = n; while !s.is_char_boundary(k) { k -= 1; } format!("{}...({} chars)", &s[..k], s.len()) } }
 fn witness(s: String) -> ! { println!("WITNESS {}", trunc(&s.replace('\n', " "), 2800)); std::process::exit(1) }
-fn strict_level() -> u32 { std::env::var("SW_STRICT").ok().and_then(|v| v.parse().ok()).unwrap_or(0) }
-fn strict() -> bool { strict_level() >= 1 }
+fn strict() -> bool { std::env::var("SW_STRICT").map(|v| v != "0" && !v.is_empty()).unwrap_or(false) }
 fn debug() -> bool { std::env::var("SW_DEBUG").map(|v| v == "1").unwrap_or(false) }
 fn payload(n: usize, salt: u8) -> Vec<u8> { (0..n).map(|i| (i as u8).wrapping_mul(7).wrapping_add(salt)).collect() }
 // ---- safety nets: catch_unwind cannot stop a call that never returns or allocates without bound
@@ -1424,14 +1422,14 @@ fn c10_scripted() {
         if !matches!((args.get(0), args.get(1)), (Some(Amf0Value::Utf8String(k)), Some(Amf0Value::Utf8String(m))) if k == "pk" && m == "live") { x.bad(format!("publish command arguments: {}", r.show())); }
         for k in 0..3 { let (r, _, _) = x.pub_media(k); x.expect_refused(r, "publish_* while publishing is only requested"); }
         let r = x.on_status("NetStream.Play.Start", 7); if !r.silent() { x.bad(format!("onStatus(NetStream.Play.Start) while publish is requested must not be applied, got {}", r.show())); }
-        x.expect_media_in(7, false, &[0, 1], "while publish is requested");
+        x.expect_media_in(7, false, &[0, 1, 2], "while publish is requested");
         let r = x.on_status("NetStream.Publish.Start", 7); if r.err.is_some() || !r.out.is_empty() || r.ev != vec![ClientSessionEvent::PublishRequestAccepted] { x.bad(format!("onStatus(NetStream.Publish.Start): expected exactly the accepted event, got {}", r.show())); }
         for k in 0..3u8 {
             let (r, d, _) = x.pub_media(k);
             let ok = r.err.is_none() && r.ev.is_empty() && r.out.len() == 1 && r.out[0].msid == 7 && match (&r.out[0].msg, k) { (RtmpMessage::AudioData { data }, 0) | (RtmpMessage::VideoData { data }, 1) => data[..] == d[..], (RtmpMessage::Amf0Data { values }, 2) => matches!(values.get(0), Some(Amf0Value::Utf8String(n)) if n == "@setDataFrame"), _ => false };
             if !ok { x.bad(format!("publish_{} while publishing: expected one matching message on stream 7, got {}", ["audio_data", "video_data", "metadata"][k as usize], r.show())); }
         }
-        x.expect_media_in(7, false, &[0, 1], "while publishing"); x.expect_media_in(8, false, &[0, 1, 2], "while publishing");
+        x.expect_media_in(7, false, &[0, 1, 2], "while publishing (play neither requested nor running)"); x.expect_media_in(8, false, &[0, 1, 2], "while publishing");
         let r = x.req_play("k"); x.expect_refused(r, "request_playback while publishing"); let r = x.req_pub("k"); x.expect_refused(r, "request_publishing while publishing");
         let r = x.stop_play(); x.expect_nothing(r, "stop_playback while publishing");
         let (r, _, _) = x.pub_media(1); if r.err.is_some() || r.out.len() != 1 { x.bad(format!("publish_video_data after a refused stop_playback: {}", r.show())); }
@@ -1444,7 +1442,7 @@ fn c10_scripted() {
     }
 }
 // pseudo-random histories against a model of the statement.  Not generated (the statement does not settle them): a second
-// request while a connect / createStream is still unanswered, onMetaData on the active stream while publishing.
+// request while a connect / createStream is still unanswered.
 #[derive(Clone, Debug, PartialEq)]
 enum M { Disc, ConnPending(f64), Connected, CreatePending(f64, bool, String), PlayReq(u32), Playing(u32), PubReq(u32), Publishing(u32) }
 fn c10_walk(rng: &mut Rng, steps: usize) {
@@ -1489,7 +1487,6 @@ fn c10_walk(rng: &mut Rng, steps: usize) {
             }
             11 | 12 | 13 => {
                 let sid = 1 + rng.below(7) as u32; let kind = rng.below(3) as u8;
-                if kind == 2 && matches!(m, M::PubReq(s) | M::Publishing(s) if s == sid) { continue; }
                 if playing == Some(sid) { stat("c10 media on the active stream while play requested/running"); }
                 x.expect_media_in(sid, playing == Some(sid), &[kind], &format!("in state {:?}", m));
             }
@@ -1499,17 +1496,9 @@ fn c10_walk(rng: &mut Rng, steps: usize) {
     }
 }
 fn c10_strict() {
-    if strict_level() >= 2 {
-        let mut y = Cli::new();
-        let r = y.req_conn("live"); let (t, _, _) = y.expect_cmd(&r, "connect", &[0], "request_connection");
-        let r = y.result(t + 0.5, &[]); y.expect_unknown_tx(&r, t + 0.5, &format!("[strict] _result for transaction id {} (never used; the pending connect is {})", t + 0.5, t));
-    }
-    let (mut x, _) = Cli::connected();
-    let r = x.req_pub("k"); let (t, _, _) = x.expect_cmd(&r, "createStream", &[0], "request_publishing");
-    let r = x.result(t, &[A::N(3.0)]); x.expect_cmd(&r, "publish", &[3], "createStream result");
-    let _ = x.on_status("NetStream.Publish.Start", 3);
-    let (r, _, _) = x.media_in(3, 2);
-    if !r.ev.is_empty() { x.bad(format!("[strict] onMetaData on the active stream 3 while PUBLISHING (play neither requested nor running): the statement allows media events only while play is requested or running, got {}", r.show())); }
+    let mut y = Cli::new();
+    let r = y.req_conn("live"); let (t, _, _) = y.expect_cmd(&r, "connect", &[0], "request_connection");
+    let r = y.result(t + 0.5, &[]); y.expect_unknown_tx(&r, t + 0.5, &format!("[strict] _result for transaction id {} (never used; the pending connect is {})", t + 0.5, t));
 }
 fn mode_c10(seed: u64) {
     c10_scripted();
